@@ -33,6 +33,7 @@ impl Tier {
 
 thread_local! {
     static LAST_PANIC: RefCell<Option<String>> = RefCell::new(None);
+    static IN_GUARD: std::cell::Cell<u32> = std::cell::Cell::new(0);
 }
 
 fn normalize_path(p: &str) -> String {
@@ -64,6 +65,10 @@ pub fn install_panic_hook() {
             "?".into()
         };
         let msg: String = msg.replace('\n', " ").chars().take(60).collect();
+        if IN_GUARD.with(|g| g.get()) == 0 {
+            // a panic of the harness itself, not of the library under test
+            eprintln!("harness panic at {}: {}", loc, msg);
+        }
         LAST_PANIC.with(|l| *l.borrow_mut() = Some(format!("{} | {}", loc, msg)));
     }));
 }
@@ -77,7 +82,10 @@ pub enum Guarded<T> {
 /// run `f` (a call into the library under test) and observe whether it unwinds
 pub fn guard<T>(f: impl FnOnce() -> T) -> Guarded<T> {
     LAST_PANIC.with(|l| *l.borrow_mut() = None);
-    match catch_unwind(AssertUnwindSafe(f)) {
+    IN_GUARD.with(|g| g.set(g.get() + 1));
+    let res = catch_unwind(AssertUnwindSafe(f));
+    IN_GUARD.with(|g| g.set(g.get() - 1));
+    match res {
         Ok(v) => Guarded::Done(v),
         Err(_) => Guarded::Panicked(
             LAST_PANIC
